@@ -10,19 +10,19 @@ WALK_NOTE = ("Trusted base: the reference model refchess (validated against the 
 
 CHECKS = {
  "C01": dict(tech="explicit-state lock-step exploration of the real generator against a reference rules model (bounded exhaustive)",
-   text="Every legal move sequence to the per-seed depth from ~42 tree seeds plus every member of the castle / en-passant matrices (thorough: complete matrices and all 3-men positions) is enumerated; at every state the complete move list of the real generator (arbitrated by a brand-new generator on any mismatch) is compared as a multiset with an independent mailbox rules model validated on published perft tables. Enumerated families added after seeded changes: convergent capture-promotions with one pawn pinned, castle-shaped rook / queen moves, ep-only-reply.",
+   text="Every legal move sequence to the per-seed depth from ~42 tree seeds plus every member of the castle / en-passant matrices (thorough: complete matrices and all 3-men positions) is enumerated; at every state the complete move list of the real generator (arbitrated by a brand-new generator on any mismatch) is compared as a multiset with an independent mailbox rules model validated on published perft tables. Enumerated families added after seeded changes: convergent capture-promotions with one pawn pinned, castle-shaped rook / queen moves, ep-only-reply. Round 5: crowded armies (16 men with 2-3 queens against a king two squares away), trees at the end of long games with an en-passant capture pending.",
    ref="DESIGN.md §4 C01"),
  "C02": dict(tech="explicit-state exploration with one long-lived generator per worker + exhaustive replay of all key-colliding pairs",
    text="The same bounded state space is walked with generators that are never reset; every answer (move list, attack map of both colours) is compared with the model and arbitrated by a brand-new generator; every pair of distinct positions observed under one (key, colour) is replayed in both orders on new generators. Further passes: a single generator asked about every explored state in key order; twins (same placement, other ep / rights) in both orders; convergent promotions; arrangements and legal positions whose keys differ in exactly one bit (constructed by Gaussian elimination over GF(2) on the black-box-read key constants) put to one generator in both orders.",
    ref="DESIGN.md §4 C02"),
  "C03": dict(tech="explicit-state lock-step exploration: every transition replayed on the real board and compared with the model successor",
-   text="For every state of the bounded space and every legal move the real apply is executed and placement, castling rights, en-passant target and turn are compared with the model successor. Also: castle-shaped rook / queen moves, and 300..600-ply games replayed by apply alone (nothing else touches the board) compared with the model after every ply.",
+   text="For every state of the bounded space and every legal move the real apply is executed and placement, castling rights, en-passant target and turn are compared with the model successor. Also: castle-shaped rook / queen moves, and 300..600-ply games replayed by apply alone (nothing else touches the board) compared with the model after every ply. Round 5: replayed games in which ply p is a double step or a right-losing rook move for every p within 3 of 256 / 512 / 1024 / 2048; 1300- and 2300-ply replays.",
    ref="DESIGN.md §4 C03"),
  "C04": dict(tech="stateless nested apply/undo DFS over all paths (no state merging) with full observable snapshots",
-   text="All paths to the per-seed depth are walked as one nested apply/undo DFS on a single board; a full snapshot of every public observable is compared after every undo at every nesting depth, after undo of pseudo-legal transient moves, and around every query routine; small trees at the end of pre-rolled games of 250..520 plies (from the start position and from a root where an en-passant capture is two plies away; never merged, cache-cold generators), after which the whole game is unwound against a snapshot stack.",
+   text="All paths to the per-seed depth are walked as one nested apply/undo DFS on a single board; a full snapshot of every public observable is compared after every undo at every nesting depth, after undo of pseudo-legal transient moves, and around every query routine; small trees at the end of pre-rolled games of 250..520 plies (from the start position and from a root where an en-passant capture is two plies away; never merged, cache-cold generators), after which the whole game is unwound against a snapshot stack. Round 5: 1300- and 2300-ply games opening with double steps, unwound completely.",
    ref="DESIGN.md §4 C04"),
  "C05": dict(tech="explicit-state exploration with differential key oracle (play vs direct set-up vs first arrival) + exhaustive constant-table pair check",
-   text="At every state the running key is compared with the key of the same position set up directly and, on merged arrivals, with the key recorded on first arrival; all pairs of the 768+64+16 black-box-read constants are checked pairwise distinct and non-zero. Also: keys compared with a direct set-up along all register / unregister histories (the key must not depend on how often a position was counted) and after every ply of 300..600-ply games replayed by apply alone.",
+   text="At every state the running key is compared with the key of the same position set up directly and, on merged arrivals, with the key recorded on first arrival; all pairs of the 768+64+16 black-box-read constants are checked pairwise distinct and non-zero. Also: keys compared with a direct set-up along all register / unregister histories (the key must not depend on how often a position was counted) and after every ply of 300..600-ply games replayed by apply alone. Round 5: keys compared while unwinding the 1300- / 2300-ply games.",
    ref="DESIGN.md §4 C05"),
  "C06": dict(tech="explicit-state lock-step exploration; verdicts and annotations compared with the model at every state",
    text="At every state of the bounded space: in-check for both colours, game_ending and the check/mate annotation of every legal move are compared with the model, using long-lived generators; plus a single-generator verdict pass, twin passes, the terminal family and the enumerated family in which a checking double step can only be answered by capturing en passant.",
@@ -34,31 +34,31 @@ CHECKS = {
    text="At every state every label produced by the engine is compared with the model's SAN and labels are checked pairwise distinct. Also every tree seed and its one-ply neighbours with 98 and 99 plies on the half-move clock (never merged), the ep-only-reply family and a seed where only the knight promotion mates.",
    ref="DESIGN.md §4 C13"),
  "C19": dict(tech="explicit-state lock-step exploration; render / read-back round trip on every legal move",
-   text="At every state every legal move's coordinate text is compared with the model's, checked distinct, read back through the (hook-exposed) bridge reader and re-applied; the resulting position must equal the original move's. Also the family of castle-shaped rook / queen moves (e1/e8 to the c- or g-file while castling rights exist).",
+   text="At every state every legal move's coordinate text is compared with the model's, checked distinct, read back through the (hook-exposed) bridge reader and re-applied; the resulting position must equal the original move's. Also the family of castle-shaped rook / queen moves (e1/e8 to the c- or g-file while castling rights exist). Round 5: trees at the end of long games (ply counts past 255) with an en-passant capture pending.",
    ref="DESIGN.md §4 C19"),
 }
 
 CHECKS.update({
  "C10": dict(tech="exhaustive enumeration of the configuration space (seed x depth x generator history x pool size) against reference perft",
-   text="Every combination of 15 seeds (the published perft suite plus targeted ones), depth 0..D, generator history {brand-new, served smaller depths, served all earlier seeds} and rayon pool size {1,2,4,16} is executed on the real count_positions and compared with the perft sums of the reference model (itself checked against the published tables and the figures quoted in the property). One more history: a generator that first answered every other public query (attack maps, in-check, game ending, plain and annotated lists, notation) about the same board.",
+   text="Every combination of 15 seeds (the published perft suite plus targeted ones), depth 0..D, generator history {brand-new, served smaller depths, served all earlier seeds} and rayon pool size {1,2,4,16} is executed on the real count_positions and compared with the perft sums of the reference model (itself checked against the published tables and the figures quoted in the property). One more history: a generator that first answered every other public query (attack maps, in-check, game ending, plain and annotated lists, notation) about the same board. Round 5: rights twins (same men, fewer castling rights) counted on one generator in both orders.",
    ref="DESIGN.md §4 C10", note="Trusted base: refchess perft (validated on published tables). Bounded by depth per seed; CLI output is covered in the thorough tier only."),
  "C11": dict(tech="complete enumeration of square x occupancy for every slider / leaper through the public attack query",
-   text="For every square and every subset of the full rook / bishop rays (edge squares included, a superset of the 102,400 + 5,248 relevant-mask cases) times 3 off-ray noise patterns, for queens on the rook and bishop products with the other ray set empty / full, and for knights and kings with every subset of enemy pieces on their targets, the real get_attack_targets answer is compared with a ray walk; union semantics with friendly blockers are compared on every walked position. Also: for each of the 64 key bits an arrangement whose position key differs from a base arrangement in exactly that bit (GF(2) construction, verified on real boards), all put to one generator in both orders, so that an attack cache comparing only part of the key is exposed.",
+   text="For every square and every subset of the full rook / bishop rays (edge squares included, a superset of the 102,400 + 5,248 relevant-mask cases) times 3 off-ray noise patterns, for queens on the rook and bishop products with the other ray set empty / full, and for knights and kings with every subset of enemy pieces on their targets, the real get_attack_targets answer is compared with a ray walk; union semantics with friendly blockers are compared on every walked position. Also: for each of the 64 key bits an arrangement whose position key differs from a base arrangement in exactly that bit (GF(2) construction, verified on real boards), all put to one generator in both orders, so that an attack cache comparing only part of the key is exposed. Round 5: generators constructed inside rayon pools of 29 sizes answer the rook / bishop / queen queries on every square.",
    ref="DESIGN.md §4 C11", note="Only the magic constants drawn by this build are examined (thorough rebuilds further draws). No answer can come from the attack cache (generator renewed on any key repeat)."),
  "C16": dict(tech="explicit-state search over (position, half-move clock) with live boards + boundary-preloaded tree walks, step-local clock oracle",
    text="Every transition of the tree-seed walk, of walks from boards preloaded with half-move clocks 47..101 and ply counts 0..511, and of a BFS/DFS to fixpoint over (position, half-move clock <= 104) on closed locked-pawn graphs (games up to 311 plies) is executed on the real board; the clock step, its undo and the draw verdict (clock >= 100) are compared with the rule in every state; games of 255..1100 plies are unwound with both clocks compared at every ply.",
    ref="DESIGN.md §4 C16", note="Mated/stalemated states at clock >= 100 are not judged. Overflow checks are on in the harness build so a wrap aborts and is reported."),
  "C18": dict(tech="complete enumeration of the evaluation's table domain, of walked positions, of the material lattice extremes and of terminal position x remaining depth",
-   text="Every piece-square cell in both contexts and both colours, every walked position against its colour-swapped rotated image, every legal one-side material vector at best squares against a minimal opponent, and every collected mated / stalemated position at remaining depth 0..255 are evaluated on the real functions. Terminal positions are first put to the same generator with 100 plies on the half-move clock (not judged), then scored with a fresh clock.",
+   text="Every piece-square cell in both contexts and both colours, every walked position against its colour-swapped rotated image, every legal one-side material vector at best squares against a minimal opponent, and every collected mated / stalemated position at remaining depth 0..255 are evaluated on the real functions. Terminal positions are first put to the same generator with 100 plies on the half-move clock (not judged), then scored with a fresh clock. Round 5: every lattice board is compared with its colour-swapped rotated image, on best and on worst cells.",
    ref="DESIGN.md §4 C18", note="Extreme boards place pieces greedily on the best cells read black-box from the table part."),
 })
 
 CHECKS.update({
  "C07": dict(tech="exhaustive enumeration of (position, depth, pool size) cases on the real search with legality / error / snapshot oracles",
-   text="Every state within 1-2 plies of 16 seeds, every collected mated / stalemated / single-move / in-check state (cap per class reported), depth 0..3 and rayon pools of 1,2,3,8,16,64 threads: each case is one real alpha_beta_search call; the answer must be a legal move of the model or the declared error, never a panic or a hang (watchdog), and the caller's board snapshot must be unchanged.",
+   text="Every state within 1-2 plies of 16 seeds, every collected mated / stalemated / single-move / in-check state (cap per class reported), depth 0..3 and rayon pools of 1,2,3,8,16,64 threads: each case is one real alpha_beta_search call; the answer must be a legal move of the model or the declared error, never a panic or a hang (watchdog), and the caller's board snapshot must be unchanged. Round 5: single-line fortresses searched at every interesting depth up to 255; double-en-passant family.",
    ref="DESIGN.md §4 C07", note="Reduced LRU capacity hook for generators; hang = no answer within 600 s."),
  "C08": dict(tech="exhaustive enumeration of positions x depths x search histories, each compared with a cache-free exhaustive minimax oracle",
-   text="Brand-new context: seed roots, their neighbours and small endgames at depth up to 5; reused context: ALL histories search - any move - any reply - search (two rounds in thorough) from six seeds and, at depth 4 (5 thorough), from small positions with loose material, plus king-path games and engine-vs-engine lines; every search's score and move are compared with an un-pruned minimax (memoised on (position, plies left) from depth 4 and cross-checked against the plain recursion) over the model's moves using the engine's leaf evaluation.",
+   text="Brand-new context: seed roots, their neighbours and small endgames at depth up to 5; reused context: ALL histories search - any move - any reply - search (two rounds in thorough) from six seeds and, at depth 4 (5 thorough), from small positions with loose material, plus king-path games and engine-vs-engine lines; every search's score and move are compared with an un-pruned minimax (memoised on (position, plies left) from depth 4 and cross-checked against the plain recursion) over the model's moves using the engine's leaf evaluation. Round 5: colour-swapped endgames and deep mates for both colours at depth 6 (7 thorough).",
    ref="DESIGN.md §4 C08", note="Leaf evaluation is the engine's own (C18/C06 cover it); clocks stay far from the draw threshold."),
 })
 
@@ -70,7 +70,7 @@ CHECKS.update({
 
 CHECKS.update({
  "C17": dict(tech="exhaustive enumeration of register / unregister operation histories against a multiset-of-positions model",
-   text="From nine seeds (true recurrence, triangulation, castling-right loss, en-passant opportunity in both colours, double step followed by a lost right in both colours, single pawn step, capture) every history over the alphabet {quiet menu move + register, unregister + take back} up to length 9 (11 thorough) is executed on one real board; returned count, reported count and draw verdict are compared with a multiset of full positions after every operation; every menu-move game containing a third occurrence is also played through the Game API and must be reported drawn.",
+   text="From nine seeds (true recurrence, triangulation, castling-right loss, en-passant opportunity in both colours, double step followed by a lost right in both colours, single pawn step, capture) every history over the alphabet {quiet menu move + register, unregister + take back} up to length 9 (11 thorough) is executed on one real board; returned count, reported count and draw verdict are compared with a multiset of full positions after every operation; every menu-move game containing a third occurrence is also played through the Game API and must be reported drawn. Round 5: the Game API part runs with both parities of the move counter.",
    ref="DESIGN.md §4 C17", note="Positions are registered after the move and the turn toggle. Multiplicities above 3 are not judged."),
 })
 
@@ -82,7 +82,7 @@ CHECKS.update({
 
 CHECKS.update({
  "C14": dict(tech="exhaustive enumeration of inputs per state (all 4096 coordinate pairs, generated string sets, command-line lines) against the rules model",
-   text="For every tree seed and child position (grandchildren in thorough): all 4096 coordinate pairs, every legal label, every label of the other side / parent position, every near-miss image of a legal label under a fixed operator list, and junk are submitted to the real Game API; every label the engine prints is also typed through the real stdin reader (fd 0 replaced by a pipe) and executed; accepted inputs must yield exactly the model successor, clocks and history entry, rejected ones must leave the full snapshot and history untouched. Thorough: the real `chess pvp` binary is driven over stdin along scripted games and its printed boards are compared with the model.",
+   text="For every tree seed and child position (grandchildren in thorough): all 4096 coordinate pairs, every legal label, every label of the other side / parent position, every near-miss image of a legal label under a fixed operator list, and junk are submitted to the real Game API; every label the engine prints is also typed through the real stdin reader (fd 0 replaced by a pipe) and executed; accepted inputs must yield exactly the model successor, clocks and history entry, rejected ones must leave the full snapshot and history untouched. Thorough: the real `chess pvp` binary is driven over stdin along scripted games and its printed boards are compared with the model. Round 5: members of the ep-discovery, ep-only-reply and castle-shaped families are states too.",
    ref="DESIGN.md §4 C14", note="Strings that denote a legal move only under a lenient reading are not judged. The Game object is reused across inputs by taking accepted moves back; any mismatch after taking back discards the object."),
 })
 
